@@ -222,6 +222,36 @@ func (b *Builder) EnumProgram(o EnumOpts) []EnumInfo {
 	return infos
 }
 
+// EnumSame declares one enum type that is converted to itself at nested positions (the field
+// both structs share, elements, map values). The generated methods carry the converter-level
+// enum:unknown policy; with setPolicy the converter gets one if it has none (without it a missing
+// policy is left for the negative leg: generation must fail).
+func (b *Builder) EnumSame(setPolicy bool) []EnumInfo {
+	id := b.id()
+	kind := []string{"int", "string", "uint8", "int64"}[b.draw(4, "enum-same-kind")]
+	n := 2 + b.draw(4, "enum-same-n")
+	var cs []spec.Const
+	info := EnumInfo{}
+	for i := 0; i < n; i++ {
+		v := enumLit(kind, i+1)
+		cs = append(cs, spec.Const{Name: fmt.Sprintf("Same%d%s", id, memberPool[i%len(memberPool)]), Value: v})
+		info.Values = append(info.Values, v)
+	}
+	tn := fmt.Sprintf("EnumSame%d", id)
+	b.A.Types = append(b.A.Types, &spec.TypeDecl{Name: tn, U: spec.Basic(kind), Consts: cs})
+	info.Type = b.A.Name + "." + tn
+	e := spec.Named(b.A.Key, tn)
+	if setPolicy && b.Conv.Settings.EnumUnknown == "" {
+		b.Conv.Settings.EnumUnknown = []string{"@ignore", "@panic", "@error"}[b.draw(3, "enum-same-unknown")]
+	}
+	if b.Conv.Settings.EnumUnknown == "@error" {
+		b.enumNeedErr = true
+	}
+	b.enumPairs = append(b.enumPairs, namedPair{e, e})
+	b.label("enum:same-type-both-sides")
+	return []EnumInfo{info}
+}
+
 func enumLit(kind string, i int) string {
 	switch kind {
 	case "string":
